@@ -189,7 +189,9 @@ func runC08(c *ev.Case, ctx *lib.Ctx, sc c08Scenario) {
 		}
 	}
 	synctest.Wait()
-	sig := func(op string) ev.Sig { return ev.Sig{"op": op, "dialled": sc.dialled, "pattern": sc.pattern, "handler": sc.handler} }
+	sig := func(op string) ev.Sig {
+		return ev.Sig{"op": op, "dialled": sc.dialled, "pattern": sc.pattern, "handler": sc.handler}
+	}
 	fail := false
 	if sc.handler == 2 {
 		// while the held handler blocks, every other connection must have made full progress
